@@ -30,8 +30,11 @@ type c21Case struct {
 }
 
 func c21Gen(t *rapid.T) c21Case {
-	if rapid.IntRange(0, 1).Draw(t, "family") == 0 {
+	switch rapid.IntRange(0, 5).Draw(t, "family") {
+	case 0, 1, 2:
 		return c21GenChains(t)
+	case 3:
+		return c21GenCycles(t)
 	}
 	c := c21Case{
 		G:        genEG(t, egGenOpts{MaxNT: 5, Terms: 6, NodePct: 70, Lists: true, MaxDepth: 2, NestedNode: true}),
